@@ -197,6 +197,13 @@ def validate_histories(rep: Report, traces: list[dict], owners: list, selfcheck=
 
 
 def main(rep: Report, replay: dict | None) -> None:
+    try:
+        _main(rep, replay)
+    finally:
+        c15_run.cleanup()
+
+
+def _main(rep: Report, replay: dict | None) -> None:
     rep.assumptions += ASSUMPTIONS
     rep.rule = (
         "spec->code: every edge of the quick TermCache models (cell A/B/C, memo) executed on a real pty in "
